@@ -14,7 +14,7 @@ var runCounter int
 func newVC(prog *Program, fi *FuncInfo) *VC {
 	runCounter++
 	return &VC{prog: prog, fn: fi, heap0: map[string]*Term{}, heapSorts: map[string]*Sort{}, runTag: fmt.Sprintf("r%d", runCounter),
-		boxed: map[types.Object]bool{}, siteOrd: map[ast.Node]string{}, loopPath: map[ast.Stmt]string{}, closures: map[types.Object]*ast.FuncLit{}, analyzed: map[ast.Node]bool{}}
+		boxed: map[types.Object]bool{}, siteOrd: map[ast.Node]string{}, loopPath: map[ast.Stmt]string{}, closures: map[types.Object]*ast.FuncLit{}, analyzed: map[ast.Node]bool{}, ghostTypes: map[string]types.Type{}}
 }
 
 // analyzeBody computes boxed variables and site numbering for a function body.
